@@ -366,4 +366,53 @@ theorem good_run (t : Tracker) (h : List Pkt) (hg : Good t) : Good (run t h) := 
   | nil => exact hg
   | cons k rest ih => exact ih _ (good_feed t k hg)
 
+/-! ### SACK option bytes -/
+
+theorem encodeEdges_length (es : List Nat) : (encodeEdges es).length = 4 * es.length := by
+  induction es with
+  | nil => rfl
+  | cons e r ih => simp only [encodeEdges, List.length_cons, ih]; omega
+
+theorem decodeEdges_encodeEdges (es : List Nat) (h : ∀ e ∈ es, e < 4294967296) :
+    decodeEdges (encodeEdges es) = es := by
+  induction es with
+  | nil => rfl
+  | cons e r ih =>
+    have he := h e List.mem_cons_self
+    simp only [encodeEdges, decodeEdges, ih (fun x hx => h x (List.mem_cons_of_mem _ hx))]
+    congr 1
+    simp only [UInt8.toNat_ofNat']
+    omega
+
+/-- the SACK option written by `TCP::sack` decodes to the same edge vector -/
+theorem decodeSack_encodeEdges (es : List Nat) (h : ∀ e ∈ es, e < 4294967296) :
+    decodeSack (encodeEdges es) = .edges es := by
+  unfold decodeSack
+  rw [encodeEdges_length, decodeEdges_encodeEdges es h]
+  have : (4 * es.length % 4 != 0) = false := by simp
+  rw [this]; rfl
+
+/-! ### SACK processing switched off -/
+
+/-- cumulative ACKs that never move backwards and advance by less than half the sequence space -/
+def acksOK : Nat → List Pkt → Bool
+  | _, [] => true
+  | A, k :: rest => decide (A ≤ k.ack) && decide (k.ack < A + half) && acksOK k.ack rest
+
+theorem feed_noSack (t : Tracker) (k : Pkt) (hs : t.useSack = false) : feed t k = ackStep t (wrap32 k.ack) := by
+  unfold feed processPacket
+  simp only [ackStep_useSack, hs]
+  rfl
+
+theorem rep_run_noSack {A : Nat} {t : Tracker} (h : List Pkt) (hr : Rep A [] t) (hs : t.useSack = false)
+    (hc : acksOK A h = true) : Rep (cumAck A h) [] (run t h) := by
+  induction h generalizing A t with
+  | nil => simpa [cumAck, run] using hr
+  | cons k rest ih =>
+    simp only [acksOK, Bool.and_eq_true, decide_eq_true_eq] at hc
+    have hstep := rep_ackStep hr k.ack hc.1.1 hc.1.2 rfl
+    rw [← feed_noSack t k hs] at hstep
+    have := ih hstep (by rw [feed_useSack, hs]) hc.2
+    simpa [cumAck, run] using this
+
 end Tins.Ack
